@@ -33,7 +33,7 @@ REQUIRED = ["Never.C16.destructor_table_complete_partial", "Never.C16.discardabl
             "Never.C16.borrowed_never_released", "Never.C16.releases_use_the_deleter_of_the_type", "Never.C16.constructors_fill_only_known_fields",
             "Never.C16.fresh_allocations_go_to_released_fields", "Never.C16.elsewhere_released_there", "Never.C16.retag_keeps_ownership_partial",
             "Never.C16.unguarded_releases_never_null", "Never.C16.own_table_consistent",
-            "Never.C16.table_edges_match", "Never.C16.delete_frees_exactly_the_owned_tree", "Never.C16.delete_frees_nothing_twice_and_leaves_nothing"]
+            "Never.C16.local_allocations_handed_on", "Never.C16.table_edges_match", "Never.C16.delete_frees_exactly_the_owned_tree", "Never.C16.delete_frees_nothing_twice_and_leaves_nothing"]
 # the exception lists of Props/C16.lean (kept in step with it; the Lean side is what is proved)
 KNOWN_MISSING = ["param_decl", "except"]
 KNOWN_LEAKING = []
@@ -269,7 +269,8 @@ def check(tier, seed):
         cov["own_table"] = dict(delete_functions=len(ot["dels"]), pointer_members=len(ot["fields"]), constructors=len(ot["ctors"]),
                                 retag_shapes=len(ot["retags"]), retag_sites=sum(r["count"] for r in ot["retags"]), late_store_rows=len(ot["late"]),
                                 builders=len(ot["builders"]), inlined_helpers=ot["helpers"], foreign_deleters=ot["foreign"], raw_constructors=ot["raw_ctors"],
-                                stores_through_unset_member=["%s: %s" % w for w in ot["wild"]], translation_units=ot["files"], problems=ot["problems"],
+                                stores_through_unset_member=["%s: %s" % w for w in ot["wild"]], local_allocations_tracked=len(ot["locals"]),
+                                local_allocations_lost=["%s: %s = %s() lost on %s" % (r["fn"], r["var"], r["alloc"], ",".join(r["lost"])) for r in ot["locals"] if r["lost"]], translation_units=ot["files"], problems=ot["problems"],
                                 translator_s=round(time.time() - t0, 2))
         if ot["problems"]:
             rep.violation("own_translator_broken_tie", "gen/owntab.py cannot classify part of the delete functions / constructors of front/ and back/ (theorem own_table_consistent fails; owned_fields_released, no_double_release, retag_keeps_ownership_partial do not speak about the current tree):\n" + "\n".join(ot["problems"]), False)
